@@ -28,8 +28,8 @@ func (v *hasSideEffectVisitor) Visit(node ast.Node) (w ast.Visitor) {
 			return nil
 		}
 		// Converting a slice to an array (or array pointer) panics if it is too short.
-		if t := v.info.TypeOf(n.Fun); t != nil && len(n.Args) == 1 {
-			if _, fromSlice := v.info.TypeOf(n.Args[0]).Underlying().(*types.Slice); fromSlice {
+		if t, at := v.info.TypeOf(n.Fun), typeOfArg(v.info, n); t != nil && at != nil {
+			if _, fromSlice := at.Underlying().(*types.Slice); fromSlice {
 				switch u := t.Underlying().(type) {
 				case *types.Array:
 					v.hasSideEffect = true
@@ -53,7 +53,11 @@ func (v *hasSideEffectVisitor) Visit(node ast.Node) (w ast.Visitor) {
 		if tv, ok := v.info.Types[n.X]; ok && tv.IsType() {
 			break // instantiation of a generic type
 		}
-		switch t := v.info.TypeOf(n.X).Underlying().(type) {
+		xt := v.info.TypeOf(n.X)
+		if xt == nil {
+			break // synthetic node without type information
+		}
+		switch t := xt.Underlying().(type) {
 		case *types.Map, *types.Signature:
 		case *types.Array:
 			if tv, ok := v.info.Types[n.Index]; !ok || tv.Value == nil {
@@ -78,7 +82,9 @@ func (v *hasSideEffectVisitor) Visit(node ast.Node) (w ast.Visitor) {
 	case *ast.BinaryExpr:
 		// Integer division by a non-constant divisor may panic.
 		if n.Op == token.QUO || n.Op == token.REM {
-			if b, ok := v.info.TypeOf(n.X).Underlying().(*types.Basic); ok && b.Info()&types.IsInteger != 0 {
+			if xt := v.info.TypeOf(n.X); xt == nil {
+				break
+			} else if b, ok := xt.Underlying().(*types.Basic); ok && b.Info()&types.IsInteger != 0 {
 				if tv, ok := v.info.Types[n.Y]; !ok || tv.Value == nil {
 					v.hasSideEffect = true
 					return nil
@@ -87,4 +93,12 @@ func (v *hasSideEffectVisitor) Visit(node ast.Node) (w ast.Visitor) {
 		}
 	}
 	return v
+}
+
+// typeOfArg returns the type of the single argument of a conversion, or nil.
+func typeOfArg(info *types.Info, n *ast.CallExpr) types.Type {
+	if len(n.Args) != 1 {
+		return nil
+	}
+	return info.TypeOf(n.Args[0])
 }
